@@ -411,7 +411,7 @@ macro_rules! expand_capacity {
             };
             let axis: usize = kani::any();
             let new_size: usize = kani::any();
-            kani::assume(axis < 2 && new_size <= 8);
+            kani::assume(axis < 2 && new_size <= 5);
             let ok = t.has_capacity(axis, new_size);
             kani::cover!(ok && new_size > t.size(axis), "growth accepted");
             kani::cover!(!ok, "growth rejected");
@@ -432,7 +432,9 @@ macro_rules! expand_capacity {
         }
     };
 }
-expand_capacity!(c08_q_expand_contig_2x2_cap16, [2, 2], [2, 1], 16);
-expand_capacity!(c08_q_expand_contig_3x1_cap12, [3, 1], [1, 1], 12);
+expand_capacity!(c08_q_expand_contig_2x2_cap8, [2, 2], [2, 1], 8);
+expand_capacity!(c08_t_expand_contig_2x2_cap16, [2, 2], [2, 1], 16);
+expand_capacity!(c08_t_expand_contig_3x1_cap12, [3, 1], [1, 1], 12);
 expand_capacity!(c08_t_expand_padded_2x2_cap16, [2, 2], [4, 1], 16);
-expand_capacity!(c06_q_expand_contig_2x3_cap16, [2, 3], [3, 1], 16);
+expand_capacity!(c06_t_expand_contig_2x3_cap16, [2, 3], [3, 1], 16);
+expand_capacity!(c06_q_expand_contig_2x2_cap8, [2, 2], [2, 1], 8);
